@@ -1,0 +1,8 @@
+//go:build !verif
+
+package starlark
+
+import "go.starlark.net/internal/compile"
+
+// verifStep is a no-op unless built with -tags verif (see verif_hooks.go).
+func verifStep(*Thread, *Function, uint32, compile.Opcode) {}
